@@ -25,6 +25,7 @@ Ev == T.ev
 Cmds == DOMAIN T.deps
 DepsOf(c) == {T.deps[c][i] : i \in 1..Len(T.deps[c])}
 Fails == {T.fails[i] : i \in 1..Len(T.fails)}
+IgnoredOf(c) == {T.ignored[c][i] : i \in 1..Len(T.ignored[c])}      \* references c's execute is known not to read
 
 RECURSIVE Reach(_, _)
 Reach(S, k) == IF k = 0 THEN S ELSE Reach(S \cup UNION {DepsOf(c) : c \in S}, k - 1)
@@ -67,7 +68,7 @@ VRead(e) ==
 
 ExecEnd(e) ==
     IF stack = <<>> \/ Top # e.c THEN Fail("Trace.EndMismatch")
-    ELSE IF T.strict /\ ~(DepsOf(e.c) \subseteq reads[e.c]) THEN Fail("C01.DependencyNotRead")
+    ELSE IF T.strict /\ ~((DepsOf(e.c) \ IgnoredOf(e.c)) \subseteq reads[e.c]) THEN Fail("C01.DependencyNotRead")
     ELSE IF T.strict /\ ~(reads[e.c] \subseteq DepsOf(e.c)) THEN Fail("C01.ReadUnreferenced")
     ELSE /\ st' = [st EXCEPT ![e.c] = "finished"] /\ val' = [val EXCEPT ![e.c] = e.tok]
          /\ stack' = Pop /\ UNCHANGED <<reads, verdict>>
